@@ -1,5 +1,353 @@
 import Proofs.Lemmas.Find
 import Proofs.Audit
+/-!
+# C01 — `FileSet.find` returns exactly the files that overlap the requested period
+
+Property theorems only; helper lemmas are in `Proofs/Lemmas/{Time,Find}.lean`, the model in
+`Model/{Time,Find}.lean`.  All statements hold for every layout (any number of directory
+levels: literal, `*`, user placeholders, year/year2/month/day/doy/hour in any grouping),
+every population (any length, duplicates, zero-length coverages), every period, every
+exclusion list and filter.
+
+`wellPlaced cfg f` is the placement precondition of the property ("each file sits in the
+directory of its start time and lasts no longer than one period of the finest directory
+level"): the temporal values in the directory names are the calendar fields of `f.t0`,
+`t0 ≤ t1 ≤ datetime.max`, and — when the directory part holds a temporal placeholder —
+`t1 - t0 ≤ _sub_dir_time_resolution` (366 d / 31 d / 1 d / 1 h as the code defines it;
+`TM.period_le_res`: every real month / year is at most that long).
+-/
 open FS TM
-theorem C01_stub : True := trivial
-assert_axioms C01_stub
+
+/-- the declarative selection of the property for the semi-open period `[start, stop)` -/
+def Selected (cfg : Config) (F : Filters) (start stop : Nat) (f : FileRec) : Prop :=
+  f.t0 < stop ∧ start ≤ f.t1 ∧
+  ¬ (f.id ∈ cfg.exclNames ∨ ∃ p ∈ cfg.exclTimes, p.1 ≤ f.t1 ∧ f.t0 ≤ p.2) ∧
+  whiteOk F.white f.users = true ∧ blackOk F.black f.users = true
+
+/-- the files of an answer, bundled or not -/
+def Out.files : Out → List FileRec
+  | .flat l => l
+  | .bundles bs => bs.flatten
+
+/-- order of the sort key `(t0, t1)` -/
+def KeyLe (a b : FileRec) : Prop := a.t0 < b.t0 ∨ (a.t0 = b.t0 ∧ a.t1 ≤ b.t1)
+
+private theorem sel_iff {cfg : Config} {F : Filters} {s e stop : Nat} (f : FileRec)
+    (hse : e + 1 = stop) : sel cfg F s e f = true ↔ Selected cfg F s stop f := by
+  unfold sel Selected overlaps
+  simp only [Bool.and_eq_true, decide_eq_true_eq, Bool.not_eq_true', ← Bool.not_eq_true,
+    isExcluded_iff]
+  constructor
+  · rintro ⟨⟨⟨⟨h1, h2⟩, h3⟩, h4⟩, h5⟩; exact ⟨by omega, h2, h3, h4, h5⟩
+  · rintro ⟨h1, h2, h3, h4, h5⟩; exact ⟨⟨⟨⟨by omega, h2⟩, h3⟩, h4⟩, h5⟩
+
+private theorem keyLe_iff (a b : FileRec) : keyLe a b = true ↔ KeyLe a b := by
+  unfold keyLe KeyLe; simp
+
+private theorem findRaw_ok {cfg : Config} {q : Query} {pop raw : List FileRec}
+    (h : findRaw cfg q pop = .ok raw) :
+    ∃ s e ds, period cfg q = .ok (s, e, ds) ∧ raw = pop.filter (keep cfg q.filters s e ds) := by
+  unfold findRaw at h
+  cases hp : period cfg q with
+  | error err => rw [hp] at h; cases h
+  | ok v =>
+    obtain ⟨s, e, ds⟩ := v
+    rw [hp] at h
+    simp only [Except.ok.injEq] at h
+    exact ⟨s, e, ds, rfl, h.symm⟩
+
+private theorem prepare_files_perm {raw : List FileRec} {sort : Bool} {b : Bundle} {out : Out}
+    (h : prepare raw sort b = .ok out) : (Out.files out).Perm raw := by
+  unfold prepare at h
+  cases b with
+  | none =>
+    simp only [Except.ok.injEq] at h
+    subst h
+    unfold Out.files
+    by_cases hs : sort = true
+    · simp only [hs, if_true]; exact sortFiles_perm raw
+    · simp only [hs]; exact List.Perm.refl _
+  | count n =>
+    by_cases hn : n = 0
+    · simp [hn] at h
+    · simp only [hn, if_false, Except.ok.injEq] at h
+      subst h
+      unfold Out.files chunksOf
+      simp only []
+      rw [chunksAux_flatten n (by omega) _ _ (le_refl _)]
+      exact sortFiles_perm raw
+  | freq w =>
+    simp only [] at h
+    split at h
+    · cases h
+    · simp only [Except.ok.injEq] at h
+      subst h
+      unfold Out.files
+      exact ((groupByBin_props w _).1).trans (sortFiles_perm raw)
+
+private theorem find_ok {cfg : Config} {q : Query} {sort : Bool} {b : Bundle} {nf : Bool}
+    {pop : List FileRec} {out : Out} (h : find cfg q sort b nf pop = .ok out) :
+    ∃ raw, findRaw cfg q pop = .ok raw ∧ prepare raw sort b = .ok out := by
+  unfold find at h
+  cases hr : findRaw cfg q pop with
+  | error err => rw [hr] at h; cases h
+  | ok raw =>
+    rw [hr] at h
+    simp only [] at h
+    by_cases hc : (nf && raw.isEmpty) = true
+    · rw [if_pos hc] at h; cases h
+    · rw [if_neg hc] at h; exact ⟨raw, rfl, h⟩
+
+/-- **C01_nothing_else** (soundness, no placement hypothesis): whatever `find` yields —
+sorted or not, bundled or not — is a file of the population whose coverage `[t0, t1]`
+meets the semi-open period (`t0 < end`, `t1 ≥ start`), that is excluded neither by name
+nor by an excluded period, and that passes the white- and the black-list; and the answer
+is, up to order, a sub-list of the population (nothing is yielded more often than it
+occurs there). -/
+theorem C01_nothing_else (cfg : Config) (q : Query) (sort : Bool) (b : Bundle) (nf : Bool)
+    (pop : List FileRec) (out : Out) (h : find cfg q sort b nf pop = .ok out) :
+    (∀ f ∈ Out.files out, f ∈ pop ∧ Selected cfg q.filters (startOf q) (stopOf q) f) ∧
+    ∃ l, (Out.files out).Perm l ∧ l.Sublist pop := by
+  obtain ⟨raw, hr, hprep⟩ := find_ok h
+  obtain ⟨s, e, ds, hper, rfl⟩ := findRaw_ok hr
+  have hperm := prepare_files_perm hprep
+  obtain ⟨hs, he, _, _⟩ := period_ok hper
+  constructor
+  · intro f hf
+    have hf' := (hperm.mem_iff).mp hf
+    obtain ⟨hpop, hk⟩ := List.mem_filter.mp hf'
+    refine ⟨hpop, ?_⟩
+    rw [← hs]
+    exact (sel_iff f he).mp (sel_of_keep hk)
+  · exact ⟨_, hperm, List.filter_sublist⟩
+
+/-- **C01_dir_kept_of_overlap** (pruning completeness): with the look-back
+`dir_start = start - resolution`, every directory level of a well-placed file whose
+coverage meets the period is kept by `_check_placeholders` — in each of its three
+outcomes (full date comparison, year-only fall-back, no year). -/
+theorem C01_dir_kept_of_overlap (cfg : Config) (q : Query) (s e ds : Nat) (f : FileRec)
+    (hper : period cfg q = .ok (s, e, ds)) (hwp : wellPlaced cfg f = true)
+    (hw : whiteOk q.filters.white f.users = true) (h0 : f.t0 < stopOf q) (h1 : startOf q ≤ f.t1) :
+    dirsOk q.filters.white ds e [] {} cfg.layout f.dirs = true := by
+  obtain ⟨hs, he, _, _⟩ := period_ok hper
+  exact dirs_kept hper hwp hw (by omega) (by omega)
+
+/-- **C01_find_spec**: for a well-placed population (and a template inside the quantifier,
+`layoutSupported`), `find(start, end)` with the default `sort=True` equals the *stable sort
+by `(t0, t1)` of the population filtered by the selection predicate* — whenever the period
+is valid (`period … = ok`, i.e. `start < end` and no `OverflowError`).  Consequently the
+answer is a permutation of the selected files (each as often as it occurs: exactly once for
+distinct files), ordered by `(t0, t1)`, it contains exactly the selected files, and
+`NoFilesError` is raised iff `no_files_error` and nothing is selected. -/
+theorem C01_find_spec (cfg : Config) (q : Query) (pop : List FileRec) (nf : Bool)
+    (_hsup : layoutSupported [] cfg.layout = true)
+    (hwp : ∀ f ∈ pop, wellPlaced cfg f = true) (s e ds : Nat)
+    (hper : period cfg q = .ok (s, e, ds)) :
+    let chosen := pop.filter (sel cfg q.filters s e)
+    (∀ f, f ∈ chosen ↔ f ∈ pop ∧ Selected cfg q.filters (startOf q) (stopOf q) f) ∧
+    findRaw cfg q pop = .ok chosen ∧
+    find cfg q true .none nf pop =
+      (if nf && chosen.isEmpty then .error .noFiles else .ok (.flat (sortFiles chosen))) ∧
+    (sortFiles chosen).Perm chosen ∧
+    (sortFiles chosen).Pairwise KeyLe ∧
+    ((pop.map (·.id)).Nodup → ((sortFiles chosen).map (·.id)).Nodup) := by
+  intro chosen
+  obtain ⟨hs, he, _, _⟩ := period_ok hper
+  have hfilter : pop.filter (keep cfg q.filters s e ds) = chosen := by
+    apply List.filter_congr
+    intro f hf
+    exact keep_eq_sel hper (hwp f hf)
+  have hraw : findRaw cfg q pop = .ok chosen := by
+    unfold findRaw; rw [hper]; simp only []; rw [hfilter]
+  refine ⟨?_, hraw, ?_, sortFiles_perm _, ?_, ?_⟩
+  · intro f
+    rw [List.mem_filter, sel_iff f he, hs]
+  · unfold find; rw [hraw]; simp only [prepare, if_true]
+  · exact (sortFiles_sorted chosen).imp (fun h => (keyLe_iff _ _).mp h)
+  · intro hnd
+    have h1 : (chosen.map (·.id)).Nodup :=
+      List.Nodup.sublist (List.Sublist.map _ List.filter_sublist) hnd
+    exact ((sortFiles_perm chosen).map _).nodup_iff.mpr h1
+
+/-- `find(t, t)`, or any period with `end ≤ start`, raises `ValueError` -/
+theorem C01_value_error (cfg : Config) (q : Query) (sort : Bool) (b : Bundle) (nf : Bool)
+    (pop : List FileRec) (h0 : stopOf q ≠ 0) (h : stopOf q ≤ startOf q) :
+    find cfg q sort b nf pop = .error .valueError := by
+  have : period cfg q = .error .valueError := by
+    unfold period; rw [if_neg h0, if_pos (by omega)]
+  unfold find findRaw; rw [this]
+
+/-- **C01_bundle_partition**: bundling only partitions the sorted sequence.  Bundles by
+count: their concatenation *is* the sorted answer, none is empty, none longer than `n`.
+Bundles by a fixed frequency `w`: none is empty, each lies in one bin `t0 / w`, and their
+concatenation is a permutation of the sorted answer. -/
+theorem C01_bundle_partition (cfg : Config) (q : Query) (b : Bundle) (nf : Bool)
+    (pop : List FileRec) (bs : List (List FileRec))
+    (h : find cfg q true b nf pop = .ok (.bundles bs)) :
+    ∃ raw, findRaw cfg q pop = .ok raw ∧
+      (∀ x ∈ bs, x ≠ []) ∧
+      match b with
+      | .none => False
+      | .count n => bs.flatten = sortFiles raw ∧ ∀ x ∈ bs, x.length ≤ n
+      | .freq w => bs.flatten.Perm (sortFiles raw) ∧
+          ∀ x ∈ bs, ∀ f ∈ x, ∀ g ∈ x, f.t0 / w = g.t0 / w := by
+  obtain ⟨raw, hr, hprep⟩ := find_ok h
+  refine ⟨raw, hr, ?_⟩
+  unfold prepare at hprep
+  cases b with
+  | none => simp at hprep
+  | count n =>
+    by_cases hn : n = 0
+    · simp [hn] at hprep
+    · simp only [hn, if_false, Except.ok.injEq, Out.bundles.injEq] at hprep
+      subst hprep
+      have hp := chunksAux_props (α := FileRec) n (by omega) (sortFiles raw).length (sortFiles raw)
+      exact ⟨fun x hx => (hp x hx).1,
+        chunksAux_flatten n (by omega) _ _ (le_refl _), fun x hx => (hp x hx).2⟩
+  | freq w =>
+    simp only [] at hprep
+    split at hprep
+    · cases hprep
+    · simp only [Except.ok.injEq, Out.bundles.injEq] at hprep
+      subst hprep
+      obtain ⟨hp, hb⟩ := groupByBin_props w (sortFiles raw)
+      exact ⟨fun x hx => (hb x hx).1, hp, fun x hx f hf g hg => (hb x hx).2 f hf g hg⟩
+
+/-- **C01_contains_iff**: `t in fileset` is true iff some non-excluded file of the
+(well-placed) population covers `t` -/
+theorem C01_contains_iff (cfg : Config) (pop : List FileRec) (t : Nat) (r : Bool)
+    (_hsup : layoutSupported [] cfg.layout = true)
+    (hwp : ∀ f ∈ pop, wellPlaced cfg f = true) (h : containsT cfg pop t = .ok r) :
+    (r = true ↔ ∃ f ∈ pop, f.t0 ≤ t ∧ t ≤ f.t1 ∧ isExcluded cfg f = false) := by
+  unfold containsT at h
+  by_cases ht : t ≥ maxT
+  · simp [ht] at h
+  · simp only [ht, if_false] at h
+    cases hr : findRaw cfg { start := some t, stop := some (t + 1) } pop with
+    | error err => rw [hr] at h; cases h
+    | ok raw =>
+      rw [hr] at h
+      simp only [Except.ok.injEq] at h
+      obtain ⟨s, e, ds, hper, rfl⟩ := findRaw_ok hr
+      obtain ⟨hs, he, _, _⟩ := period_ok hper
+      have hs' : s = t := hs
+      have he' : e = t := by have : e + 1 = t + 1 := he; omega
+      subst hs'; subst he'
+      rw [← h]
+      simp only [Bool.not_eq_true', List.isEmpty_eq_false_iff_exists_mem]
+      constructor
+      · rintro ⟨f, hf⟩
+        obtain ⟨hpop, hk⟩ := List.mem_filter.mp hf
+        have := sel_of_keep hk
+        unfold sel overlaps at this
+        simp only [Bool.and_eq_true, decide_eq_true_eq, Bool.not_eq_true'] at this
+        exact ⟨f, hpop, this.1.1.1.1, this.1.1.1.2, this.1.1.2⟩
+      · rintro ⟨f, hpop, h1, h2, h3⟩
+        refine ⟨f, List.mem_filter.mpr ⟨hpop, keep_of_sel hper (hwp f hpop) ?_⟩⟩
+        unfold sel overlaps
+        simp only [Bool.and_eq_true, decide_eq_true_eq, Bool.not_eq_true']
+        exact ⟨⟨⟨⟨h1, h2⟩, h3⟩, by simp [whiteOk]⟩, by simp [blackOk]⟩
+
+/-- **C01_len_eq**: `len(fileset)` is the number of non-excluded files (that start before
+`datetime.max`, the default end being exclusive) — `0` for an empty population -/
+theorem C01_len_eq (cfg : Config) (pop : List FileRec)
+    (_hsup : layoutSupported [] cfg.layout = true)
+    (hwp : ∀ f ∈ pop, wellPlaced cfg f = true) :
+    len cfg pop = .ok (pop.filter fun f => decide (f.t0 < maxT) && !isExcluded cfg f).length := by
+  have hper : period cfg {} = .ok (0, maxT - 1, 0) := by
+    unfold period startOf stopOf
+    have : maxT ≠ 0 := by decide
+    simp only [this, if_false]
+    rw [if_neg (by omega)]
+    cases subDirRes cfg.layout <;> rfl
+  unfold len findRaw
+  rw [hper]
+  simp only []
+  congr 2
+  apply List.filter_congr
+  intro f hf
+  rw [keep_eq_sel hper (hwp f hf)]
+  have hw := hwp f hf
+  unfold wellPlaced at hw
+  simp only [Bool.and_eq_true, decide_eq_true_eq] at hw
+  have hpos : 0 < maxT := by decide
+  unfold sel overlaps
+  have e1 : whiteOk ({} : Query).filters.white f.users = true := by simp [whiteOk]
+  have e2 : blackOk ({} : Query).filters.black f.users = true := by simp [blackOk]
+  rw [e1, e2]
+  simp only [Bool.and_true]
+  congr 1
+  apply decide_eq_decide.mpr
+  constructor
+  · intro h; omega
+  · intro h; omega
+
+/-- **C01_layout_independent**: re-arranging the same files (same id, coverage and
+placeholder values) into another well-placed directory layout does not change the answer -/
+theorem C01_layout_independent (cfg₁ cfg₂ : Config) (q : Query) (pop : List FileRec)
+    (move : FileRec → FileRec)
+    (hx : cfg₂.exclNames = cfg₁.exclNames ∧ cfg₂.exclTimes = cfg₁.exclTimes)
+    (hmove : ∀ f, (move f).id = f.id ∧ (move f).users = f.users ∧ (move f).t0 = f.t0 ∧
+      (move f).t1 = f.t1)
+    (_hsup₁ : layoutSupported [] cfg₁.layout = true) (_hsup₂ : layoutSupported [] cfg₂.layout = true)
+    (hwp₁ : ∀ f ∈ pop, wellPlaced cfg₁ f = true)
+    (hwp₂ : ∀ f ∈ pop, wellPlaced cfg₂ (move f) = true)
+    (raw₁ raw₂ : List FileRec)
+    (h₁ : findRaw cfg₁ q pop = .ok raw₁) (h₂ : findRaw cfg₂ q (pop.map move) = .ok raw₂) :
+    raw₂ = raw₁.map move := by
+  obtain ⟨s₁, e₁, ds₁, hper₁, rfl⟩ := findRaw_ok h₁
+  obtain ⟨s₂, e₂, ds₂, hper₂, rfl⟩ := findRaw_ok h₂
+  obtain ⟨a1, a2, _, _⟩ := period_ok hper₁
+  obtain ⟨b1, b2, _, _⟩ := period_ok hper₂
+  have hs : s₂ = s₁ := by omega
+  have he : e₂ = e₁ := by omega
+  subst hs; subst he
+  rw [List.filter_map]
+  congr 1
+  apply List.filter_congr
+  intro f hf
+  simp only [Function.comp]
+  rw [keep_eq_sel hper₂ (hwp₂ f hf), keep_eq_sel hper₁ (hwp₁ f hf)]
+  obtain ⟨m1, m2, m3, m4⟩ := hmove f
+  unfold sel overlaps isExcluded
+  rw [m1, m2, m3, m4, hx.1, hx.2]
+
+/-! ### non-vacuity -/
+
+/-- `/{year}/{month}/{day}/…`: a file in the directory of 2018-01-31 lasting from 18:00
+to 02:00 of 1 February (crossing midnight into the next month) is well placed; with the
+query `[2018-02-01 00:00, 2018-02-02 00:00)` it is found thanks to the look-back. -/
+def exLayout : List Chunk :=
+  [⟨false, [.year]⟩, ⟨false, [.month]⟩, ⟨false, [.day]⟩]
+def exCfg : Config := { layout := exLayout }
+def exT0 : Nat := ((dby 2018 + 30) * 24 + 18) * usPerHour          -- 2018-01-31T18:00
+def exT1 : Nat := ((dby 2018 + 31) * 24 + 2) * usPerHour           -- 2018-02-01T02:00
+def exFile : FileRec :=
+  { id := 7, dirs := [⟨{ year := some 2018 }, []⟩, ⟨{ month := some 1 }, []⟩, ⟨{ day := some 31 }, []⟩],
+    users := [], t0 := exT0, t1 := exT1 }
+def exQuery : Query :=
+  { start := some ((dby 2018 + 31) * usPerDay), stop := some ((dby 2018 + 32) * usPerDay) }
+
+example : wellPlaced exCfg exFile = true := by decide +kernel
+example : layoutSupported [] exLayout = true := by decide +kernel
+example : period exCfg exQuery =
+    .ok ((dby 2018 + 31) * usPerDay, (dby 2018 + 32) * usPerDay - 1, (dby 2018 + 30) * usPerDay) := by
+  decide +kernel
+#guard (match find exCfg exQuery true .none true [exFile] with
+  | .ok (.flat [f]) => f.id == 7 | _ => false)
+-- without the look-back the directory 2018/01/31 would have been pruned:
+#guard dirsOk [] ((dby 2018 + 31) * usPerDay) ((dby 2018 + 32) * usPerDay - 1) [] {} exLayout exFile.dirs == false
+-- bundling: three files, bundles of two
+#guard (match find { layout := [] } {} true (.count 2) false
+    [⟨0, [], [], 50, 60⟩, ⟨1, [], [], 10, 20⟩, ⟨2, [], [], 10, 15⟩] with
+  | .ok (.bundles [[a, b], [c]]) => a.id == 2 && b.id == 1 && c.id == 0 | _ => false)
+#guard (match find { layout := [] } {} true (.freq 100) false
+    [⟨0, [], [], 250, 260⟩, ⟨1, [], [], 110, 120⟩, ⟨2, [], [], 199, 300⟩] with
+  | .ok (.bundles [[a, b], [c]]) => a.id == 1 && b.id == 2 && c.id == 0 | _ => false)
+-- exclusion and filters really remove files
+#guard (match find { layout := [], exclTimes := [(15, 16)] } { filters := { black := [("sat", ["A"])] } } true .none false
+    [⟨0, [], [("sat", "B")], 50, 60⟩, ⟨1, [], [("sat", "AB")], 10, 12⟩, ⟨2, [], [("sat", "B")], 10, 15⟩] with
+  | .ok (.flat [a]) => a.id == 0 | _ => false)
+
+assert_axioms C01_nothing_else C01_dir_kept_of_overlap C01_find_spec C01_value_error
+  C01_bundle_partition C01_contains_iff C01_len_eq C01_layout_independent
